@@ -1,4 +1,8 @@
 import BinlogVerif.Lemmas.VisitRender
+import BinlogVerif.Lemmas.VisitRenderPP
+import BinlogVerif.Lemmas.StrBytes
+import BinlogVerif.Lemmas.E2ESession
+import BinlogVerif.Props.C03
 import BinlogVerif.Props.C06
 /-
   C07 (part "render refines") — the text `ToStringVisitor` prints, when `mserialize::visit` drives it
@@ -92,5 +96,300 @@ example : Visit.visit (toStringVisitor none) (tag C06.exT) {} (encode C06.exT C0
     (by simp [C06.exT, C06.exV, hasTy, hasTyFields, hasTyAll, hasTyNth, hasTyList, arithSize, List.replicate])
     (by decide) (C06.c06_emptyStructsOk_of_noStructDef _ _ (by decide))
   simpa using this
+
+/-! ## C07, message part: the format string with each `{}` replaced by the rendering of the next argument -/
+
+/-- the documented message: the format string with each `{}` replaced by the next rendered argument
+    (when the arguments run out, `{}` is replaced by nothing: the C++ pops an empty tag and visits nothing).
+    `{` immediately followed by `}` is a placeholder; scanning continues after the `}`. -/
+def substitute : Bytes → List Bytes → Bytes
+  | [], _ => []
+  | [c], _ => [c]
+  | c :: d :: rest, args =>
+    if c = 123 ∧ d = 125 then args.headD [] ++ substitute rest args.tail
+    else c :: substitute (d :: rest) args
+
+theorem visit_nil {σ} (v : Visitor σ) (s : σ) (input : Bytes) : Visit.visit v [] s input = .ok (s, input) := by
+  simp [Visit.visit, visitImpl]
+
+/-- the loop of `printEventMessage` for ANY visitor configuration `tp` that renders each argument as
+    documented (`hvisit`), any accumulated output, any sufficient fuel -/
+theorem c07_message_go (tp : Option TimePrinter) (args : List (Ty × Val))
+    (hok : ∀ a ∈ args, TyOk a.1 = true)
+    (hvisit : ∀ a ∈ args, ∀ pre rest, Visit.visit (toStringVisitor tp) (tag a.1) { out := pre } (encode a.1 a.2 ++ rest)
+        = .ok ({ out := pre ++ render a.1 a.2 }, rest))
+    (fuel : Nat) (fmt : Bytes) (hf : fmt.length < fuel) (pre : Bytes) :
+    printEventMessage.go tp fuel fmt (tagList (args.map (·.1))) (args.map fun a => encode a.1 a.2).flatten { out := pre }
+      = .ok { out := pre ++ substitute fmt (args.map fun a => render a.1 a.2) } := by
+  induction fuel generalizing fmt args pre with
+  | zero => omega
+  | succ fuel ih =>
+    match fmt with
+    | [] => simp [printEventMessage.go, substitute]
+    | [c] =>
+      rw [printEventMessage.go]
+      have : ¬ (c = 123 ∧ ([] : Bytes).head? = some 125) := by simp
+      rw [if_neg this]
+      cases fuel with
+      | zero => simp at hf
+      | succ f => simp [printEventMessage.go, substitute, Ts.write]
+    | c :: d :: rest =>
+      rw [printEventMessage.go]
+      simp only [List.head?_cons, Option.some.injEq, List.drop_succ_cons, List.drop_zero]
+      rw [substitute]
+      by_cases hc : c = 123 ∧ d = 125
+      · rw [if_pos hc, if_pos hc]
+        match args with
+        | [] =>
+          simp only [List.map_nil, tagList_nil, tagPop_nil, List.flatten_nil, visit_nil]
+          have := ih [] (by simp) (by simp) rest (by simp at hf; omega) pre
+          simpa [tagList_nil] using this
+        | a :: as =>
+          simp only [List.map_cons, tagList_cons, List.flatten_cons,
+            tagPop_tag a.1 (TyOkN.of_tyOk (hok a (by simp))), hvisit a (by simp)]
+          have := ih as (fun x hx => hok x (by simp [hx])) (fun x hx => hvisit x (by simp [hx])) rest
+            (by simp at hf; omega) (pre ++ render a.1 a.2)
+          rw [this]
+          simp [List.append_assoc]
+      · rw [if_neg hc, if_neg hc]
+        have := ih args hok hvisit (d :: rest) (by simp at hf ⊢; omega) (pre ++ [c])
+        simp only [Ts.write]
+        rw [this]
+        simp [List.append_assoc]
+
+/-- **C07, message** (visitor without a pretty printer): for a log statement whose argument tags are the
+    tags of the argument types, the message printed for the event carrying the documented encodings of the
+    argument values is the format string with each `{}` replaced by the documented rendering. -/
+theorem c07_message (src : EventSource) (clock : Nat) (args : List (Ty × Val))
+    (htags : src.argumentTags = tagList (args.map (·.1)))
+    (hok : ∀ a ∈ args, TyOk a.1 = true ∧ hasTy a.1 a.2 = true ∧ depth a.1 < 2048 ∧ EmptyStructsOk (tag a.1) a.1) :
+    Pretty.printEventMessage none ⟨src, clock, (args.map fun a => encode a.1 a.2).flatten⟩
+      = .ok (substitute src.formatString (args.map fun a => render a.1 a.2)) := by
+  unfold Pretty.printEventMessage
+  simp only
+  rw [htags, c07_message_go none args (fun a ha => (hok a ha).1)
+    (fun a ha pre rest => c07_render_append a.1 a.2 rest pre (hok a ha).1 (hok a ha).2.1 (hok a ha).2.2.1 (hok a ha).2.2.2)
+    _ _ (Nat.lt_succ_self _) []]
+  simp
+
+/-- no struct occurring in the type is one of those `PrettyPrinter::printStruct` renders specially
+    (`binlog::address`, `std::chrono::system_clock::time_point`, `std::chrono::duration<Rep,…`,
+    `std::filesystem::path`, `std::filesystem::directory_entry`, `std::error_code`): decidable, by name -/
+abbrev NoSpecialStruct (t : Ty) : Prop := noSpecialStruct t = true
+
+/-- what `NoSpecialStruct` buys: `printStruct` declines the struct, whatever the fields and the input are -/
+theorem c07_printStruct_declines (tp : Pretty.TimePrinter) (name tagOfFields input : Bytes)
+    (h : specialName name = false) : Pretty.printStruct tp name tagOfFields input = .ok none :=
+  printStruct_none tp name tagOfFields input h
+
+/-- `c07_render_refines` for the visitor with an arbitrary pretty printer -/
+theorem c07_render_refines_pp (tp : Option Pretty.TimePrinter) (full : Bytes) (t : Ty) (v : Val) (rest : Bytes) (maxRec : Nat)
+    (hok : TyOk t = true) (hv : hasTy t v = true) (hd : depth t < maxRec)
+    (hes : EmptyStructsOk full t) (hns : NoSpecialStruct t) (s : Ts) (h0 : 0 ≤ s.seqDepth) (hf : s.emptyStruct = false) :
+    ∃ s', Visit.visitImpl (toStringVisitor tp) full maxRec (tag t) s (encode t v ++ rest) = .ok (s', rest)
+      ∧ s'.out = s.out ++ separator s.state ++ render t v
+      ∧ s'.seqDepth = s.seqDepth ∧ s'.emptyStruct = false
+      ∧ (s.state ≠ .normal → s.seqDepth ≠ 0 → s'.state = .seq)
+      ∧ (s.state = .normal → s.seqDepth = 0 → s'.state = .normal) :=
+  renderP_tag tp full t v maxRec s rest hok hv hd hes hns h0 hf
+
+/-- `c07_render_append` for the visitor with an arbitrary pretty printer -/
+theorem c07_render_append_pp (tp : Option Pretty.TimePrinter) (t : Ty) (v : Val) (rest : Bytes) (pre : Bytes)
+    (hok : TyOk t = true) (hv : hasTy t v = true) (hd : depth t < 2048)
+    (hes : EmptyStructsOk (tag t) t) (hns : NoSpecialStruct t) :
+    Visit.visit (toStringVisitor tp) (tag t) { out := pre } (encode t v ++ rest)
+      = .ok ({ out := pre ++ render t v }, rest) := by
+  obtain ⟨s', e, o, d, f, _, st⟩ :=
+    c07_render_refines_pp tp (tag t) t v rest 2048 hok hv hd hes hns { out := pre } (Int.le_refl 0) rfl
+  have hst := st rfl rfl
+  rw [Visit.visit, e]
+  cases s' with
+  | mk state seqDepth emptyStruct out =>
+    simp only at o d f hst
+    subst o d f hst
+    simp [sepOf]
+
+/-- **C07, message, as `bread` prints it** (the visitor has a pretty printer): the same, for argument
+    types none of whose structs is specially printed. -/
+theorem c07_message_pp (tp : Pretty.TimePrinter) (src : EventSource) (clock : Nat) (args : List (Ty × Val))
+    (htags : src.argumentTags = tagList (args.map (·.1)))
+    (hok : ∀ a ∈ args, TyOk a.1 = true ∧ hasTy a.1 a.2 = true ∧ depth a.1 < 2048 ∧ EmptyStructsOk (tag a.1) a.1)
+    (hns : ∀ a ∈ args, NoSpecialStruct a.1) :
+    Pretty.printEventMessage (some tp) ⟨src, clock, (args.map fun a => encode a.1 a.2).flatten⟩
+      = .ok (substitute src.formatString (args.map fun a => render a.1 a.2)) := by
+  unfold Pretty.printEventMessage
+  simp only
+  rw [htags, c07_message_go (some tp) args (fun a ha => (hok a ha).1)
+    (fun a ha pre rest => c07_render_append_pp (some tp) a.1 a.2 rest pre (hok a ha).1 (hok a ha).2.1 (hok a ha).2.2.1
+      (hok a ha).2.2.2 (hns a ha))
+    _ _ (Nat.lt_succ_self _) []]
+  simp
+
+/-- non-vacuity: `BINLOG_INFO("a={} b={}!", int32_t(-2), std::string("hi"))` -/
+def exMsgSrc : EventSource := { id := 1, formatString := [97, 61, 123, 125, 32, 98, 61, 123, 125, 33], argumentTags := [105, 91, 99] }
+def exMsgArgs : List (Ty × Val) := [(.arith 105, .num 4294967294), (.seq (.arith 99), .seq [.num 104, .num 105])]
+
+theorem exMsg_tags : exMsgSrc.argumentTags = tagList (exMsgArgs.map (·.1)) := by decide
+theorem exMsg_ok : ∀ a ∈ exMsgArgs, TyOk a.1 = true ∧ hasTy a.1 a.2 = true ∧ depth a.1 < 2048 ∧ EmptyStructsOk (tag a.1) a.1 := by
+  intro a ha
+  simp only [exMsgArgs, List.mem_cons, List.not_mem_nil, or_false] at ha
+  rcases ha with rfl | rfl
+  · exact ⟨by decide, by simp [hasTy, arithSize], by decide, C06.c06_emptyStructsOk_of_noStructDef _ _ (by decide)⟩
+  · exact ⟨by decide, by simp [hasTy, hasTyAll, arithSize], by decide, C06.c06_emptyStructsOk_of_noStructDef _ _ (by decide)⟩
+theorem exMsg_bytes : (exMsgArgs.map fun a => encode a.1 a.2).flatten = [254, 255, 255, 255, 2, 0, 0, 0, 104, 105] := by
+  simp [exMsgArgs, encode, encodeAll, arithSize, le]
+theorem exMsg_renders : (exMsgArgs.map fun a => render a.1 a.2) = [intDec (-2), [104, 105]] := by
+  simp [exMsgArgs, render, isCharTy, arithText, toSigned]
+
+/-- the hypotheses hold and the message is `a=-2 b=hi!`, without … -/
+example : Pretty.printEventMessage none ⟨exMsgSrc, 7, [254, 255, 255, 255, 2, 0, 0, 0, 104, 105]⟩
+    = .ok (strBytes "a=-2 b=hi!") := by
+  have h := c07_message exMsgSrc 7 exMsgArgs exMsg_tags exMsg_ok
+  rw [exMsg_bytes] at h
+  rw [h, exMsg_renders, intDec, strBytes_eq, strBytes_eq]
+  congr 1
+
+/-- … and with a pretty printer (any) -/
+example (tp : TimePrinter) : Pretty.printEventMessage (some tp) ⟨exMsgSrc, 7, [254, 255, 255, 255, 2, 0, 0, 0, 104, 105]⟩
+    = .ok (strBytes "a=-2 b=hi!") := by
+  have h := c07_message_pp tp exMsgSrc 7 exMsgArgs exMsg_tags exMsg_ok (by decide)
+  rw [exMsg_bytes] at h
+  rw [h, exMsg_renders, intDec, strBytes_eq, strBytes_eq]
+  congr 1
+
+/-- `NoSpecialStruct` is decidable by evaluation (`strBytes_eq` makes the name literals computable):
+    the struct example of C06 has no special struct, `std::error_code` is special -/
+example : NoSpecialStruct C06.exT := by
+  simp only [NoSpecialStruct, C06.exT, noSpecialStruct, noSpecialStructFields, noSpecialStructList, specialName,
+    startsWith, strBytes_eq]
+  decide
+example : specialName (strBytes "std::error_code") = true := by
+  simp only [specialName, startsWith, strBytes_eq]
+  decide
+
+/-! ## C07, reading back what the session wrote -/
+
+export BinlogVerif.E2E (expectedItems EntryWf OpWf OpsWf SrcOk WpOk srcsAfter wpAfter csAfter)
+
+/-- **C07, read back**: the items `bread` obtains from the bytes of a list of representable entries are
+    the `expectedItems` of the structured entries (latest source definition / writer properties / clock sync
+    before each event), and the stream ends without an error.
+    `EntryWf` (Lemmas/E2E.lean): every field fits its machine type (`EventSource.Wf`, `WriterProp.Wf`,
+    `ClockSync.Wf`, event clock < 2^64), the payload fits the 32-bit size prefix (`PayloadOk`), and the
+    source id of an EVENT is < 2^63 (not a special tag).  Source ENTRIES only need an id < 2^64. -/
+theorem c07_read_back (es : List Sess.Entry) (hwf : ∀ e ∈ es, EntryWf e) :
+    Bread.itemsOf (Sess.writeBytes es) = expectedItems [] {} {} es :=
+  E2E.read_back es hwf
+
+/-- no entry has an empty payload: the reader never mistakes an entry for the end of the stream -/
+theorem c07_payload_nonempty (e : Sess.Entry) : e.payload.isEmpty = false := E2E.payload_ne_nil e
+
+/-- the bytes of an output (the concatenation of its `write` calls) are the framed entries in order -/
+theorem c07_output_bytes (o : List Sess.Write) : (o.map Sess.writeBytes).flatten = Sess.writeBytes o.flatten := by
+  induction o with
+  | nil => rfl
+  | cons w ws ih => simp only [List.map_cons, List.flatten_cons, ih, C11.writeBytes_append]
+
+/-- "latest" made explicit for the writer properties and clock sync an item carries -/
+theorem c07_latest_writerProp (wp w : WriterProp) (a b : List Sess.Entry) (hb : ∀ w', Sess.Entry.writerProp w' ∉ b) :
+    wpAfter wp (a ++ Sess.Entry.writerProp w :: b) = w := E2E.wpAfter_last wp w a b hb
+theorem c07_latest_clockSync (cs c : ClockSync) (a b : List Sess.Entry) (hb : ∀ c', Sess.Entry.clockSync c' ∉ b) :
+    csAfter cs (a ++ Sess.Entry.clockSync c :: b) = c := E2E.csAfter_last cs c a b hb
+
+/-- **C07 end to end**: for every reachable session state (any interleaving of registrations, log calls,
+    consumes and rotations, any consume oracle), `bread -f fmt -d dateFmt` on the bytes of any output prints
+    exactly, in the order the events were consumed into that output, one text per event: `renderEvent` of the
+    event with THE source registered under its id in this session, the writer properties written before its
+    batch and the latest clock sync; and no stream error.
+
+    Hypotheses beyond `TraceOk`:
+     * `OpsWf cs0 ops`: the data of the operations fit their machine types / the size prefix;
+     * `hids` (FORCED): `addSource` overwrites the id with `nextSourceId`, nothing in the model bounds the number
+       of registrations; an id ≥ 2^63 would be read as a special entry tag.  Stated on the final state
+       (`nextSourceId` only grows).
+     * `hbatch` (FORCED): `consume` writes `batchSize := byte length of the batch`; the model's queues are
+       unbounded lists, so the 64-bit field needs the bound as a hypothesis (the real queue capacity is a
+       `size_t`).  Stated on the writer-description entries of the final outputs. -/
+theorem c07_end_to_end (cs0 : ClockSync) (ops : List Sess.Op) (s : Sess.Session)
+    (hok : Sess.TraceOk (Sess.init cs0) ops) (hrun : Sess.exec (Sess.init cs0) ops = some s) (hwf : OpsWf cs0 ops)
+    (hids : s.nextSourceId ≤ 2^63)
+    (hbatch : ∀ o ∈ s.outputs, ∀ w, Sess.Entry.writerProp w ∈ o.flatten → w.batchSize < 2^64)
+    (fmt dateFmt : Bytes) :
+    ∀ o ∈ s.outputs,
+      Bread.run false fmt dateFmt (Sess.writeBytes o.flatten)
+        = (let (ls, err) := Bread.printUntilError fmt dateFmt (expectedItems [] {} {} o.flatten)
+           ((ls.map (·.2)).flatten, err))
+      ∧ (∀ it ∈ expectedItems [] {} {} o.flatten, it.isError = false)
+      ∧ (∀ pre post sid clock args, o.flatten = pre ++ Sess.Entry.event sid clock args :: post →
+          ∃ src, Sess.Entry.source src ∈ s.sources ∧ src.id = sid
+            ∧ (∀ src', Sess.Entry.source src' ∈ s.sources → src'.id = sid → src' = src)
+            ∧ Sess.Entry.source src ∈ pre
+            ∧ expectedItems [] {} {} o.flatten =
+                expectedItems [] {} {} pre
+                  ++ Item.event ⟨src, clock, args⟩ (wpAfter {} pre) (csAfter {} pre)
+                  :: expectedItems (srcsAfter [] pre) (wpAfter {} pre) (csAfter {} pre) post) := by
+  obtain ⟨hm, hw⟩ := E2E.invs_exec (Sess.init cs0) ops s (Sess.metaInv_init cs0) (E2E.wfInv_init cs0 hwf.1) hok hwf.2 hrun
+  intro o ho
+  have hentries : ∀ e ∈ o.flatten, EntryWf e := by
+    intro e he
+    obtain ⟨w, hwo, hew⟩ := List.mem_flatten.mp he
+    exact (hw.outs o ho w hwo e hew).1.wf hids (fun w' heq => hbatch o ho w' (heq ▸ he))
+  have hsrc := C03.c03_source_before_event cs0 ops s hok hrun o ho
+  refine ⟨?_, ?_, ?_⟩
+  · unfold Bread.run
+    rw [c07_read_back _ hentries]
+    rfl
+  · apply E2E.expectedItems_noError
+    intro pre post sid clock args hl
+    obtain ⟨⟨src, hmem, hid⟩, _⟩ := hsrc pre post sid clock args hl
+    exact ⟨src, .inr hmem, hid⟩
+  · intro pre post sid clock args hl
+    obtain ⟨⟨src0, hmem0, hid0⟩, _⟩ := hsrc pre post sid clock args hl
+    have hin : src0 ∈ srcsAfter [] pre := (E2E.mem_srcsAfter [] pre src0).mpr (.inr hmem0)
+    cases hf : (srcsAfter [] pre).find? (fun x => x.id == sid) with
+    | none =>
+      have := List.find?_eq_none.mp hf src0 hin
+      simp [hid0] at this
+    | some src =>
+      have hsid : src.id = sid := by simpa using List.find?_some hf
+      have hpre : Sess.Entry.source src ∈ pre := by
+        have := (E2E.mem_srcsAfter [] pre src).mp (List.mem_of_find?_eq_some hf)
+        simpa using this
+      have hfl : Sess.Entry.source src ∈ o.flatten := by rw [hl]; exact List.mem_append_left _ hpre
+      obtain ⟨w, hwo, hew⟩ := List.mem_flatten.mp hfl
+      have hss : Sess.Entry.source src ∈ s.sources := (hw.outs o ho w hwo _ hew).2 rfl
+      refine ⟨src, hss, hsid, ?_, hpre, ?_⟩
+      · intro src' hs' hid'
+        exact E2E.source_unique s.sources (C03.c03_ids_distinct cs0 ops s hok hrun).1 src' src hs' hss (by rw [hid', hsid])
+      · rw [hl, E2E.expectedItems_at, hf]
+
+/-! non-vacuity: the trace of C03 (two writers, the same statement registered twice, consumes with stale
+    polls, a rotation) satisfies all hypotheses of `c07_end_to_end`; the expected items of its two outputs -/
+
+example : OpsWf {} C03.exOps := by
+  refine ⟨⟨by simp [ClockSync.Wf], by simp [PayloadOk, clockSyncPayload, encClockSync, encStr]⟩, ?_⟩
+  intro op hop
+  simp only [C03.exOps, List.mem_cons, List.not_mem_nil, or_false] at hop
+  rcases hop with rfl | rfl | rfl | rfl | rfl | rfl | rfl | rfl | rfl | rfl | rfl <;>
+    simp [OpWf, SrcOk, PayloadOk, sourcePayload, encSource, encStr, eventPayload]
+
+example : Sess.TraceOk (Sess.init {}) C03.exOps := by
+  simp [C03.exOps, Sess.TraceOk, Sess.OpOk, Sess.step, Sess.init, Sess.lookupWriter, Sess.newChan, Sess.setWriter,
+    Sess.updChan, Sess.consume, Sess.reconsumeMetadata, Sess.emitAll]
+
+/-- summary of an item: source id, clock, batch size of the writer description it is reported with -/
+def itemSummary : Item → Nat × Nat × Nat
+  | .event e wp _ => (e.source.id, e.clockValue, wp.batchSize)
+  | .error _ => (0, 0, 0)
+
+/-- `hids` and `hbatch` as a Boolean, and the item summaries per output -/
+def exCheck (s : Sess.Session) : Bool × List (List (Nat × Nat × Nat)) :=
+  (decide (s.nextSourceId ≤ 2^63) &&
+    s.outputs.all (fun o => o.flatten.all fun e =>
+      match e with | .writerProp w => decide (w.batchSize < 2^64) | _ => true),
+   s.outputs.map (fun o => (expectedItems [] {} {} o.flatten).map itemSummary))
+
+example : (Sess.exec (Sess.init {}) C03.exOps).map exCheck
+    = some (true, [[(1, 10, 20), (2, 11, 20)], [(1, 12, 20)]]) := by decide
 
 end BinlogVerif.C07
